@@ -228,5 +228,5 @@ func drawYen(t *rapid.T) yenCase {
 }
 
 func TestYen(t *testing.T) {
-	vk.Run(t, "yen", vk.Opts{Quick: 12000, Thorough: 300000}, drawYen, checkYen)
+	vk.Run(t, "yen", vk.Opts{Quick: 16000, Thorough: 300000}, drawYen, checkYen)
 }
